@@ -4,7 +4,8 @@ import MgpuModel.Util
 Hand transcription (branch by branch) of the part of `amd/timing/cu/computeunit.go` that page
 migration uses: `Tick` (`sendToCP`, `processInput`, `doFlush`), `processInputFromCP`,
 `handlePipelineFlushReq`, `handlePipelineResume`, `flushPipeline` (with `populateShadowBuffers`,
-the `Flush` of the scalar / vector-memory unit queues, `flushCUBuffers`),
+the `Flush` of the scalar / vector-memory unit queues, `flushCUBuffers`; the shadow lists keep what
+they hold and receive what is newly in flight — the code before that repair is `…Old`),
 `reInsertShadowBufferReqsToOriginalBuffers`, `checkShadowBuffers`, `send{Scalar,Vector,InstFetch}
 ShadowBufferAccesses`, the three return handlers `handleFetchReturn`, `handleScalarDataLoadReturn`,
 `handleVectorDataLoadReturn` / `handleVectorDataStoreRsp` (match by request ID in the in-flight
@@ -109,12 +110,22 @@ def Chan.respond (c : Chan) (r : Req) : Chan × Option Entry :=
   | none => (c, none)
   | some e => ({ c with inf := c.inf.eraseP (Entry.is r), applied := c.applied ++ [e.id] }, some e)
 
-/-- `reInsertShadowBufferReqsToOriginalBuffers` (the shadow list is left as it is) -/
-def Chan.reinsert (c : Chan) : Chan := { c with inf := c.inf ++ c.sh }
+/-- `reInsertShadowBufferReqsToOriginalBuffers`: the records still waiting to be re-sent MOVE back
+    to the in-flight list (the shadow list is emptied here, after the copy loop) -/
+def Chan.reinsert (c : Chan) : Chan := { c with inf := c.inf ++ c.sh, sh := [] }
 
-/-- `flushPipeline`: `shadow = nil`, `populateShadowBuffers` (shadow gets the in-flight records,
-    the in-flight list is emptied), the unit's `Flush` drops its queued requests -/
+/-- `flushPipeline`: `populateShadowBuffers` APPENDS the in-flight records to the shadow list (what
+    an earlier flush saved and no restart has re-sent yet stays saved), the in-flight list is
+    emptied, the unit's `Flush` drops its queued requests -/
 def Chan.flush (c : Chan) : Chan :=
+  { c with sh := c.sh ++ c.inf, inf := [], unit := [], flushed := ids (c.sh ++ c.inf), resent := [] }
+
+/-- before the repair: `reInsertShadowBufferReqsToOriginalBuffers` left the shadow list as it was … -/
+def Chan.reinsertOld (c : Chan) : Chan := { c with inf := c.inf ++ c.sh }
+
+/-- … and `flushPipeline` set `shadow = nil` before `populateShadowBuffers`: a flush executed while
+    the unit was still paused by an earlier flush dropped every saved record -/
+def Chan.flushOld (c : Chan) : Chan :=
   { c with sh := [] ++ c.inf, inf := [], unit := [], flushed := ids c.inf, resent := [] }
 
 /-- `send…ShadowBufferAccesses`: the head record gets a fresh request ID; if the port takes the
@@ -320,6 +331,24 @@ def doFlush (c : Cfg) (s : St) : St :=
 
 def tick (c : Cfg) (s : St) : St := doFlush c (processInput c (sendToCP c s))
 
+/-! the flush path before the repair (`Chan.reinsertOld`, `Chan.flushOld`) -/
+
+def reinsertOld (s : St) : St :=
+  { s with isSending := false, v := s.v.reinsertOld, s := s.s.reinsertOld, f := s.f.reinsertOld }
+
+def flushPipelineOld (s : St) : St :=
+  if !s.flushReq then s else
+  if s.handlingWfc then s else
+  { s with f := s.f.flushOld, s := s.s.flushOld, v := s.v.flushOld, isPaused := true,
+           acksLost := if s.ackPending then s.acksLost + 1 else s.acksLost,
+           ackPending := true, flushReq := false, isFlushing := false, flushes := s.flushes + 1 }
+
+def doFlushOld (c : Cfg) (s : St) : St :=
+  let s := if s.isFlushing then flushPipelineOld (if s.isSending then reinsertOld s else s) else s
+  if s.isSending then checkShadow c s else s
+
+def tickOld (c : Cfg) (s : St) : St := doFlushOld c (processInput c (sendToCP c s))
+
 def capOf (c : Cfg) : Kind → Nat
   | .f => c.capF
   | .s => c.capS
@@ -366,6 +395,14 @@ def step (c : Cfg) (s : St) (o : Op) : St :=
   | .tick => tick c s
 
 def run (c : Cfg) (s : St) (ops : List Op) : St := ops.foldl (step c) s
+
+/-- the compute unit before the repair -/
+def stepOld (c : Cfg) (s : St) (o : Op) : St :=
+  match o with
+  | .tick => if s.fault then s else tickOld c s
+  | o => step c s o
+
+def runOld (c : Cfg) (s : St) (ops : List Op) : St := ops.foldl (stepOld c) s
 
 /-! ## the line protocol (`c14 flush …`) -/
 
